@@ -5,6 +5,7 @@ package main
 
 import (
 	"fmt"
+	"go/token"
 	"go/types"
 	"strings"
 
@@ -251,24 +252,12 @@ func e2(w *World, r *Report) {
 	}
 	ra := needFn(r, "E-2", w, fref{pkgEVM, "StateDBWrapper", "revertAccessedObjAddr"})
 	if ra != nil {
-		// collects keys with p0 < recorded snapshot, deletes exactly those
-		ok := false
-		for _, b := range ra.Blocks {
-			for _, in := range b.Instrs {
-				if c, isC := in.(*ssa.Call); isC {
-					if bi, isB := c.Common().Value.(*ssa.Builtin); isB && bi.Name() == "append" && w.condCanonHolds(b, "(p0 < next(range(recv.accessedObjAddrs))#2)", 1) {
-						ok = true
-					}
-				}
-			}
-		}
-		del := false
-		for _, c := range CallsIn(ra) {
-			if bi, isB := c.Common().Value.(*ssa.Builtin); isB && bi.Name() == "delete" && w.Canon(c.Common().Args[0]) == "recv.accessedObjAddrs" {
-				del = true
-			}
-		}
-		r.Check(ok && del, "E-2", "revertAccessedObjAddr", "exactly the addresses recorded with a snapshot number above the target are forgotten", "revertAccessedObjAddr does not forget exactly the addresses recorded after the target snapshot", fnSite(w, ra))
+		// the set of forgotten addresses is exactly { k : target < mark(k) }: the
+		// only data-dependent branch compares the target snapshot with the mark,
+		// and the key is deleted (directly, or collected and deleted afterwards) on
+		// the edge where target < mark holds
+		ok, why := w.revertsExactly(ra)
+		r.Check(ok, "E-2", "revertAccessedObjAddr", "exactly the addresses recorded with a snapshot number above the target are forgotten", "revertAccessedObjAddr does not forget exactly the addresses recorded after the target snapshot: "+why, fnSite(w, ra))
 	}
 	sn := needFn(r, "E-2", w, fref{pkgEVM, "StateDBWrapper", "Snapshot"})
 	if sn != nil {
@@ -370,4 +359,101 @@ func (w *World) posOfNamed(n *types.Named) string {
 		return "-"
 	}
 	return w.Pos(n.Obj().Pos())
+}
+
+// revertsExactly decides the E-2 obligation on revertAccessedObjAddr.
+func (w *World) revertsExactly(ra *ssa.Function) (bool, string) {
+	if len(ra.Params) < 2 {
+		return false, "unexpected signature"
+	}
+	target := ssa.Value(ra.Params[1])
+	isMark := func(v ssa.Value) bool {
+		ex, ok := stripConv(v).(*ssa.Extract)
+		if !ok || ex.Index != 2 {
+			return false
+		}
+		nx, ok := ex.Tuple.(*ssa.Next)
+		if !ok {
+			return false
+		}
+		rg, ok := nx.Iter.(*ssa.Range)
+		return ok && w.Canon(rg.X) == "recv.accessedObjAddrs"
+	}
+	isKey := func(v ssa.Value) bool {
+		return strings.HasPrefix(w.Canon(v), "next(range(recv.accessedObjAddrs))#1")
+	}
+	// classify every If: loop test, or the mark comparison (edge on which target < mark)
+	holdsEdge := map[*ssa.If]int{} // 1 = true edge, 2 = false edge
+	for _, b := range ra.Blocks {
+		ifi, ok := lastInstr(b).(*ssa.If)
+		if !ok {
+			continue
+		}
+		switch c := ifi.Cond.(type) {
+		case *ssa.Extract: // `ok` of a map/slice range
+			if _, isNext := c.Tuple.(*ssa.Next); isNext && c.Index == 0 {
+				continue
+			}
+		case *ssa.BinOp:
+			x, y := stripConv(c.X), stripConv(c.Y)
+			switch {
+			case c.Op == token.LSS && x == target && isMark(y), c.Op == token.GTR && isMark(x) && y == target:
+				holdsEdge[ifi] = 1
+				continue
+			case c.Op == token.GEQ && x == target && isMark(y), c.Op == token.LEQ && isMark(x) && y == target:
+				holdsEdge[ifi] = 2
+				continue
+			}
+			// index loop over the collected slice: i < len(s)
+			if c.Op == token.LSS {
+				if call, isCall := y.(*ssa.Call); isCall {
+					if bi, isB := call.Common().Value.(*ssa.Builtin); isB && bi.Name() == "len" {
+						continue
+					}
+				}
+			}
+		}
+		return false, "a branch other than the loop tests and the comparison target < mark decides what is forgotten (" + w.Canon(ifi.Cond) + ")"
+	}
+	if len(holdsEdge) != 1 {
+		return false, fmt.Sprintf("%d comparisons of the target snapshot with the recorded mark (want 1: target < mark)", len(holdsEdge))
+	}
+	var cmp *ssa.If
+	for i := range holdsEdge {
+		cmp = i
+	}
+	onHolds := func(b *ssa.BasicBlock) bool {
+		e := condEdge(cmp, b)
+		return e != 0 && ((e == 1) == (holdsEdge[cmp] == 1))
+	}
+	// the action under the comparison: delete(map, key) or append(slice, key)
+	direct, collected, delAny := false, false, false
+	for _, c := range CallsIn(ra) {
+		bi, isB := c.Common().Value.(*ssa.Builtin)
+		if !isB {
+			continue
+		}
+		args := c.Common().Args
+		switch bi.Name() {
+		case "delete":
+			if w.Canon(args[0]) != "recv.accessedObjAddrs" {
+				continue
+			}
+			delAny = true
+			if isKey(args[1]) {
+				if !onHolds(c.Block()) {
+					return false, "an address is deleted where target < mark does not hold"
+				}
+				direct = true
+			}
+		case "append":
+			if onHolds(c.Block()) {
+				collected = true
+			}
+		}
+	}
+	if direct || (collected && delAny) {
+		return true, ""
+	}
+	return false, "no deletion of the range key (directly or via a collected slice) on the edge where target < mark holds"
 }
